@@ -15,7 +15,8 @@ from ..interp import (Interp, Arr, Num, View, Const, Obj, Seq, Lib, Native, Unsu
 from ..model import AnalysisError
 
 UC = 'pyPRISM.util.UnitConverter::UnitConverter'
-CONSTANT_UNITS = {'pi': N.PI, 'avogadro_constant': N.sym('N_A'), 'boltzmann_constant': N.sym('k_B')}
+CONSTANT_UNITS = {'pi': N.PI, 'avogadro_constant': N.sym('N_A'), 'boltzmann_constant': N.sym('k_B'),
+                  'molar_gas_constant': N.sym('N_A') * N.sym('k_B')}        # R = N_A k_B exactly (2019 SI)
 _REG = []
 
 
